@@ -255,6 +255,37 @@ def mod_model(self, other):
 _core._PATCH_REGISTRATIONS[str.__mod__] = mod_model
 
 
+# --------------------------------------------------------------------------
+# 5. functools.lru_cache: CrossHair calls every lru_cache'd function with the
+#    cache skipped, so state the code under test keeps in such a cache between
+#    two calls would be invisible to the symbolic run.  For functions of the
+#    listed module prefixes called with concrete arguments the real cache is
+#    used, as in CPython (calls with a symbolic argument keep CrossHair's
+#    behaviour: hashing would realise the value).
+# --------------------------------------------------------------------------
+def keep_caches(module_prefix):
+    from functools import _lru_cache_wrapper
+    real_call = _lru_cache_wrapper.__call__
+    skipping = _core._PATCH_REGISTRATIONS[real_call]
+    if getattr(skipping, "keeps_for", None) is not None:       # already installed
+        skipping.keeps_for.add(module_prefix)
+        return
+
+    def call(self, *a, **kw):
+        with NoTracing():
+            if (isinstance(self, _lru_cache_wrapper)
+                    and any(str(self.__wrapped__.__module__).startswith(p) for p in call.keeps_for)
+                    and not any(isinstance(v, CrossHairValue) for v in a)
+                    and not any(isinstance(v, CrossHairValue) for v in kw.values())):
+                return real_call(self, *a, **kw)
+        return skipping(self, *a, **kw)
+    call.keeps_for = {module_prefix}
+    _core._PATCH_REGISTRATIONS[real_call] = call
+
+
+keep_caches("ombott.")
+
+
 def _ref_int(x, base):
     try:
         return int(x, base)
